@@ -53,6 +53,13 @@ func defFor(check string) *checkDef {
 			probes: []string{"diff-reference-builds", "diff-comparisons", "diff-score-comparisons", "diff-builds-run-layout", "diff-builds-backup-restored", "diff-builds-reopened-from-disk", "diff-recipe-rounds"}}
 	case "C08merge":
 		return defFor("C08")
+	case "C19", "C19sizes":
+		return &checkDef{property: "C19", level: "exploration", timeout: 180 * time.Second,
+			variants: []string{"C19", "C19sizes", "C19", "C19sizes"},
+			budget:   map[string]tierCfg{"quick": {1200, 75}, "thorough": {60000, 1500}},
+			rule: "two kinds of run, alternating. (a) in situ: a merge-heavy simulated run of 10-120 (thorough 400) operations per client on the file-system directory; whenever the real merger is parked inside the planner (CalcBudget seam) the exported planner is run twice (and once on the reversed input) on the persisted segments of the snapshot it plans on: tasks only contain input segments, no segment in two tasks, task live size below the maximum segment size, no member at or above half of it, same result each time; the merges the merger then executes are compared with those tasks; at quiescence (all calls returned, background idle, reached within the window budget) it is measured whether planner work is still pending (the merger is only woken by a completed persist, so this is legal and only counted) and, when none is, that the mergeable segments are within CalcBudget. (b) sizes only: a seeded discrete-event history round the real planner over size stubs (arrivals of small, empty and over-size segments, deletions, execution of returned tasks; option ranges round the defaults; up to thousands of segments): the same invariants at every planning step, then a fixpoint within 200 plan/execute rounds once arrivals stop and the budget bound there. (b) has no scheduler or fault in it; it is included because the property's quantifier names 'simulated histories ... on sizes only'. distinct = distinct release sequences / histories; non-trivial = background step interleaved (a) or at least one task executed (b)",
+			assume: commonAssume,
+			probes: []string{"plans-checked", "plans-with-tasks", "plan-executions-compared", "quiescent-plan-checks", "sizes-only-histories", "sizes-only-300plus-segments", "plan-task-near-size-limit", "segment-too-big-to-merge"}}
 	case "C11":
 		return &checkDef{property: "C11", level: "exploration",
 			budget: map[string]tierCfg{"quick": {2500, 75}, "thorough": {100000, 1500}},
